@@ -258,7 +258,7 @@ def main():
         "not_applicable": na,
         "notes": "All checks are static: /repo is type-checked by the driver, never executed. Exit 2 = infrastructure error "
                  "(tree does not compile / driver missing). Functions that are not in tables/functions.tsv (helpers extracted by a "
-                 "later refactoring) are inlined into their callers before analysis. Tested both ways: seeded/ (181 property-breaking "
+                 "later refactoring) are inlined into their callers before analysis. Tested both ways: seeded/ (193 property-breaking "
                  "changes, RESULTS.json) and neutral/ (behaviour-preserving refactorings that must stay silent).",
     }
     json.dump(m, open(os.path.join(VERIF, "MANIFEST.json"), "w"), indent=1)
